@@ -34,8 +34,12 @@ class _Tqdm:
         pass
 
 
-def _build(names, circular, key0=0):
+def _build(names, circular, key0=0, with_resids=True):
     g = _monomers_to_linear_nx_graph(names)
+    if not with_resids:
+        # e.g. a .json sequence without resid entries: MetaMolecule numbers the residues itself (node + 1)
+        for k in g.nodes:
+            del g.nodes[k]["resid"]
     if circular:
         n = len(names)
         g.add_edge(0, n - 1)
@@ -54,7 +58,7 @@ def _build(names, circular, key0=0):
            outside=["strands longer than the bound", "non-integer node keys (the code computes new keys by integer arithmetic)", "circular strands of fewer than 3 residues",
                     "residue graphs that are not a single strand"],
            selector_only=True,
-           must_cover=["linear", "circular", "unknown rejected", "n=1"],
+           must_cover=["linear", "circular", "unknown rejected", "n=1", "without resids"],
            bounds={"quick": dict(nmax=4, alphabet=["DA", "DT", "DG", "DC", "DA5", "DC3", "DG3", "DT5", "XX"], key0=[0, 1]),
                    "thorough": dict(nmax=4, alphabet=ALL12 + ["XX", "A"], key0=[0, 1, 10])},
            budget={"quick": 200, "thorough": 1500})
@@ -68,7 +72,10 @@ def complement(sx, B):
     circular = sx.sel("circular", [False, True]) if n >= 3 else False
     names = [sx.sel("name%d" % i, B["alphabet"]) for i in range(n)]
     key0 = sx.sel("first_node_key", B["key0"])
-    meta = _build(names, circular, key0)
+    with_resids = sx.sel("input_has_resids", [True, False]) if key0 == 0 else True
+    if not with_resids:
+        sx.cover("without resids")
+    meta = _build(names, circular, key0, with_resids)
     before_nodes = {k: dict(v) for k, v in meta.nodes(data=True)}
     before_edges = {frozenset(e[:2]): dict(e[2]) for e in meta.edges(data=True)}
     has_unknown = any(comp(x) is None for x in names)
